@@ -1,5 +1,5 @@
 (* Helpers/DataURIProofs.v — DataURI: no panic, ErrBadDataURI exactly without "data:" + comma,
-   and the round trip of base64- and percent-encoded payloads with an arbitrary parameter list. *)
+   and the round trip of base64- and percent-encoded payloads for every media type. *)
 From Verif Require Import Common.Base Common.Tactics Helpers.Model Helpers.Lists Helpers.Proofs
   Helpers.UrlProofs Helpers.Base64Proofs.
 From Verif Require Gen.Tables.
@@ -48,76 +48,80 @@ Section DataURI.
       | Some d => Ok (DOk (mt_default mt) d)
       | None => Ok DB64Err
       end
-    else Ok (DOk (mt_default mt) (unescape payload)).
+    else Ok (DOk (mt_default mt) (pct_unescape payload)).
 
   (* the loop skips bytes other than = ; , *)
-  Lemma loop_plain seg : plain seg -> forall u rest j i mt inb,
-    datauri_loop b64dec u (seg ++ rest) j i mt inb = datauri_loop b64dec u rest (j + len seg) i mt inb.
+  Lemma loop_plain seg : plain seg -> forall u rest j i mt inb prev,
+    datauri_loop b64dec u (seg ++ rest) j i mt inb prev = datauri_loop b64dec u rest (j + len seg) i mt inb prev.
   Proof.
-    induction 1 as [|c seg (Hb & H61 & H59 & H44) _ IH]; intros u rest j i mt inb.
+    induction 1 as [|c seg (Hb & H61 & H59 & H44) _ IH]; intros u rest j i mt inb prev.
     - cbn [app]. f_equal. unfold len; cbn; lia.
     - cbn [app datauri_loop].
       replace ((c =? 61) || (c =? 59) || (c =? 44)) with false by lia.
       rewrite IH. f_equal. rewrite len_cons. lia.
   Qed.
 
+  (* is the segment in front of delimiter c, after delimiter prev, the base64 marker? *)
+  Definition is_marker (c prev : Z) (tr : list Z) : bool :=
+    negb (c =? 61) && negb (prev =? 61) && list_eqb tr base64_bytes.
+
   (* one iteration at a = ; , whose segment u[i:j] is known *)
-  Lemma loop_at_special u c rest' j i mt inb seg :
+  Lemma loop_at_special u c rest' j i mt inb prev seg :
     special c = true -> slice_ok i j (len u) = true -> slice u i j = seg -> Forall is_byte seg ->
-    datauri_loop b64dec u (c :: rest') j i mt inb =
+    datauri_loop b64dec u (c :: rest') j i mt inb prev =
       let tr := trim_ref seg in
       let '(mt1, inb1, i1) :=
-        if negb (c =? 61) && list_eqb tr base64_bytes then
+        if is_marker c prev tr then
           ((if 0 <? len mt then firstz (len mt - 1) mt else mt), true, j)
         else if negb (c =? 44) then (mt ++ tr ++ [c], inb, j + 1)
         else (mt ++ tr, inb, i) in
       if c =? 44 then finish mt1 inb1 rest'
-      else datauri_loop b64dec u rest' (j + 1) i1 mt1 inb1.
+      else datauri_loop b64dec u rest' (j + 1) i1 mt1 inb1 c.
   Proof.
     intros Hsp Hok Hs Hseg. cbn [datauri_loop]. unfold special in Hsp. rewrite Hsp, Hok. cbn [negb].
-    rewrite Hs. rewrite trim_bytes_ref by assumption. cbv zeta.
-    destruct (if negb (c =? 61) && list_eqb (trim_ref seg) base64_bytes
+    rewrite Hs. rewrite trim_bytes_ref by assumption. cbv zeta. unfold is_marker.
+    destruct (if negb (c =? 61) && negb (prev =? 61) && list_eqb (trim_ref seg) base64_bytes
               then (if 0 <? len mt then firstz (len mt - 1) mt else mt, true, j)
               else if negb (c =? 44) then (mt ++ trim_ref seg ++ [c], inb, j + 1) else (mt ++ trim_ref seg, inb, i))
       as [[mt1 inb1] i1].
     destruct (c =? 44); [|reflexivity].
     unfold finish, mt_default. destruct mt1 as [|m0 mt1'].
-    - cbn. rewrite decode_spec_proof. reflexivity.
+    - cbn. rewrite pct_decode_spec_proof. reflexivity.
     - rewrite len_cons. pose proof (len_nonneg mt1'). replace (1 + len mt1' =? 0) with false by lia.
-      rewrite peekz_cons_0. cbn [option_bind]. rewrite decode_spec_proof. reflexivity.
+      rewrite peekz_cons_0. cbn [option_bind]. rewrite pct_decode_spec_proof. reflexivity.
   Qed.
 
   (* --- no panic; ErrBadDataURI exactly when there is no comma ------------------------------------ *)
-  Lemma loop_total rest : forall pre i mt inb,
+  Lemma loop_total rest : forall pre i mt inb prev,
     Forall is_byte (pre ++ rest) -> 0 <= i <= len pre ->
-    exists r, datauri_loop b64dec (pre ++ rest) rest (len pre) i mt inb = Ok r /\ (r = DBad <-> ~ In 44 rest).
+    exists r, datauri_loop b64dec (pre ++ rest) rest (len pre) i mt inb prev = Ok r /\ (r = DBad <-> ~ In 44 rest).
   Proof.
-    induction rest as [|c rest IH]; intros pre i mt inb Hb Hi.
+    induction rest as [|c rest IH]; intros pre i mt inb prev Hb Hi.
     - exists DBad. split; [reflexivity|]. split; auto.
     - assert (Hu : pre ++ c :: rest = (pre ++ [c]) ++ rest) by (rewrite <- app_assoc; reflexivity).
       assert (Hl : len (pre ++ [c]) = len pre + 1) by (rewrite len_app; reflexivity).
       assert (Hlen : len (pre ++ c :: rest) = len pre + 1 + len rest) by (rewrite len_app, len_cons; lia).
       pose proof (len_nonneg rest) as Hr.
       destruct (special c) eqn:Hsp.
-      + rewrite (loop_at_special _ c rest (len pre) i mt inb (slice (pre ++ c :: rest) i (len pre))); try assumption; try reflexivity.
+      + rewrite (loop_at_special _ c rest (len pre) i mt inb prev (slice (pre ++ c :: rest) i (len pre))); try assumption; try reflexivity.
         2:{ unfold slice_ok. rewrite Hlen. lia. }
         2:{ apply forall_byte_slice. assumption. }
         cbv zeta.
         set (tr := trim_ref (slice (pre ++ c :: rest) i (len pre))).
         destruct (Z.eqb_spec c 44) as [->|Hne].
         * (* the comma: DataURI returns *)
-          destruct (negb (44 =? 61) && list_eqb tr base64_bytes); cbn [negb]; unfold finish;
+          destruct (is_marker 44 prev tr); cbn [negb]; unfold finish;
             [destruct (b64dec rest)|destruct inb; [destruct (b64dec rest)|]]; eexists; (split; [reflexivity|]);
             (split; [discriminate|intros H; exfalso; apply H; left; reflexivity]).
         * assert (Hin : In 44 (c :: rest) <-> In 44 rest).
           { split; [intros [E|H]; [congruence|assumption]|intros H; right; assumption]. }
           rewrite Hu, <- Hl.
-          destruct (negb (c =? 61) && list_eqb tr base64_bytes).
-          -- destruct (IH (pre ++ [c]) (len pre) (if 0 <? len mt then firstz (len mt - 1) mt else mt) true) as (r & Hr1 & Hr2);
+          destruct (is_marker c prev tr).
+          -- destruct (IH (pre ++ [c]) (len pre) (if 0 <? len mt then firstz (len mt - 1) mt else mt) true c) as (r & Hr1 & Hr2);
                [rewrite <- Hu; assumption|lia|].
              exists r. split; [rewrite <- Hr1; f_equal; lia|]. rewrite Hr2, Hin. tauto.
           -- replace (negb (c =? 44)) with true by lia.
-             destruct (IH (pre ++ [c]) (len (pre ++ [c])) (mt ++ tr ++ [c]) inb) as (r & Hr1 & Hr2);
+             destruct (IH (pre ++ [c]) (len (pre ++ [c])) (mt ++ tr ++ [c]) inb c) as (r & Hr1 & Hr2);
                [rewrite <- Hu; assumption|lia|].
              exists r. split; [exact Hr1|]. rewrite Hr2, Hin. tauto.
       + cbn [datauri_loop]. unfold special in Hsp. rewrite Hsp.
@@ -125,7 +129,7 @@ Section DataURI.
         assert (Hin : In 44 (c :: rest) <-> In 44 rest).
         { split; [intros [E|H]; [congruence|assumption]|intros H; right; assumption]. }
         rewrite Hu, <- Hl.
-        destruct (IH (pre ++ [c]) i mt inb) as (r & Hr1 & Hr2); [rewrite <- Hu; assumption|lia|].
+        destruct (IH (pre ++ [c]) i mt inb prev) as (r & Hr1 & Hr2); [rewrite <- Hu; assumption|lia|].
         exists r. split; [exact Hr1|]. rewrite Hr2, Hin. tauto.
   Qed.
 
@@ -137,7 +141,7 @@ Section DataURI.
     intros b Hb. unfold data_uri.
     destruct ((5 <? len b) && list_eqb (firstz 5 b) data_scheme) eqn:E.
     - apply andb_true_iff in E. destruct E as [E1 E2]. apply list_eqb_eq in E2.
-      destruct (loop_total (skipz 5 b) [] 0 [] false) as (r & Hr1 & Hr2).
+      destruct (loop_total (skipz 5 b) [] 0 [] false 0) as (r & Hr1 & Hr2).
       { cbn [app]. apply forall_byte_skipz. assumption. }
       { unfold len; cbn; lia. }
       cbn [app] in Hr1. exists r. split; [exact Hr1|]. rewrite Hr2. split; [tauto|].
@@ -146,14 +150,16 @@ Section DataURI.
       apply andb_false_iff in E. destruct E as [E|E]; [lia|]. apply list_eqb_neq in E. contradiction.
   Qed.
 
-  (* --- the parameter list --------------------------------------------------------------------------- *)
-  (* (segment delimiter)*, delimiter ';' or '='; a segment in front of ';' must not read "base64".
-     The second index is what DataURI makes of it: every segment trimmed. *)
-  Inductive params : list Z -> list Z -> Prop :=
-  | params_nil : params [] []
-  | params_cons seg d rest nrest :
-      plain seg -> d = 59 \/ d = 61 -> (d = 59 -> trim_ref seg <> base64_bytes) ->
-      params rest nrest -> params (seg ++ d :: rest) (trim_ref seg ++ d :: nrest).
+  (* --- the header in general ------------------------------------------------------------------------ *)
+  (* params pv p np pv': p is (segment delimiter)*, delimiter ';' or '='; pv is the delimiter in front
+     of p (0 at the start), pv' the last one.  A segment in front of ';' that does not follow a '='
+     (i.e. that is neither a parameter name nor a parameter value) must not read "base64".  np is
+     what DataURI makes of p: every segment trimmed. *)
+  Inductive params : Z -> list Z -> list Z -> Z -> Prop :=
+  | params_nil pv : params pv [] [] pv
+  | params_cons pv seg d rest nrest pv' :
+      plain seg -> d = 59 \/ d = 61 -> (d = 59 -> pv <> 61 -> trim_ref seg <> base64_bytes) ->
+      params d rest nrest pv' -> params pv (seg ++ d :: rest) (trim_ref seg ++ d :: nrest) pv'.
 
   Lemma slice_ok_mid (pre seg tail : list Z) :
     slice_ok (len pre) (len pre + len seg) (len (pre ++ seg ++ tail)) = true.
@@ -162,25 +168,26 @@ Section DataURI.
     pose proof (len_nonneg pre). pose proof (len_nonneg seg). pose proof (len_nonneg tail). lia.
   Qed.
 
-  Lemma loop_params p np : params p np -> forall pre tail mt inb,
-    datauri_loop b64dec (pre ++ p ++ tail) (p ++ tail) (len pre) (len pre) mt inb =
-    datauri_loop b64dec (pre ++ p ++ tail) tail (len pre + len p) (len pre + len p) (mt ++ np) inb.
+  Lemma loop_params pv p np pv' : params pv p np pv' -> forall pre tail mt inb,
+    datauri_loop b64dec (pre ++ p ++ tail) (p ++ tail) (len pre) (len pre) mt inb pv =
+    datauri_loop b64dec (pre ++ p ++ tail) tail (len pre + len p) (len pre + len p) (mt ++ np) inb pv'.
   Proof.
-    induction 1 as [|seg d rest nrest Hseg Hd Hb64 _ IH]; intros pre tail mt inb.
+    induction 1 as [pv|pv seg d rest nrest pv' Hseg Hd Hb64 _ IH]; intros pre tail mt inb.
     - cbn [app]. rewrite app_nil_r. f_equal; unfold len; cbn; lia.
     - assert (Hu : pre ++ (seg ++ d :: rest) ++ tail = pre ++ seg ++ (d :: rest ++ tail)).
       { repeat rewrite <- app_assoc. reflexivity. }
       rewrite Hu. replace ((seg ++ d :: rest) ++ tail) with (seg ++ d :: rest ++ tail)
         by (rewrite <- app_assoc; reflexivity).
       rewrite loop_plain by assumption.
-      rewrite (loop_at_special _ d (rest ++ tail) _ _ mt inb seg).
+      rewrite (loop_at_special _ d (rest ++ tail) _ _ mt inb pv seg).
       2:{ unfold special. destruct Hd; subst d; reflexivity. }
       2:{ apply slice_ok_mid. }
       2:{ apply slice_app_mid. }
       2:{ apply plain_bytes. assumption. }
       cbv zeta.
-      replace (negb (d =? 61) && list_eqb (trim_ref seg) base64_bytes) with false.
-      2:{ symmetry. destruct Hd as [->| ->]; [|reflexivity]. cbn [negb andb Z.eqb Pos.eqb]. apply list_eqb_neq. apply Hb64. reflexivity. }
+      replace (is_marker d pv (trim_ref seg)) with false.
+      2:{ symmetry. unfold is_marker. destruct Hd as [->| ->]; [|reflexivity]. cbn [negb andb Z.eqb Pos.eqb].
+          destruct (Z.eqb_spec pv 61) as [E|E]; [reflexivity|]. cbn [negb andb]. apply list_eqb_neq. apply Hb64; [reflexivity|assumption]. }
       replace (negb (d =? 44)) with true by (destruct Hd; subst d; reflexivity).
       replace (d =? 44) with false by (destruct Hd; subst d; reflexivity).
       (* continue behind the delimiter *)
@@ -194,7 +201,7 @@ Section DataURI.
   Qed.
 
   Lemma data_uri_unfold u : In 44 u ->
-    data_uri b64dec (data_scheme ++ u) = datauri_loop b64dec u u 0 0 [] false.
+    data_uri b64dec (data_scheme ++ u) = datauri_loop b64dec u u 0 0 [] false 0.
   Proof.
     intros Hin. unfold data_uri.
     assert (L : 5 < len (data_scheme ++ u)).
@@ -204,63 +211,68 @@ Section DataURI.
   Qed.
 
   (* --- the round trips --------------------------------------------------------------------------------- *)
-  (* header = p ++ last: a parameter list followed by a last segment *)
+  (* header = p ++ last: a parameter list followed by a last segment; the last segment is the marker
+     only if it reads "base64" and does not follow a '=' *)
   Lemma datauri_percent_proof :
-    forall p np last payload, params p np -> plain last -> trim_ref last <> base64_bytes ->
+    forall p np pv last payload, params 0 p np pv -> plain last -> (pv <> 61 -> trim_ref last <> base64_bytes) ->
       data_uri b64dec (data_scheme ++ (p ++ last) ++ 44 :: payload) =
-      Ok (DOk (mt_default (np ++ trim_ref last)) (unescape payload)).
+      Ok (DOk (mt_default (np ++ trim_ref last)) (pct_unescape payload)).
   Proof.
-    intros p np last payload Hp Hlast Hnb.
+    intros p np pv last payload Hp Hlast Hnb.
     rewrite data_uri_unfold by (apply in_or_app; right; left; reflexivity).
     rewrite <- app_assoc.
-    pose proof (loop_params p np Hp [] (last ++ 44 :: payload) [] false) as H.
+    pose proof (loop_params 0 p np pv Hp [] (last ++ 44 :: payload) [] false) as H.
     cbn [app] in H. change (len (@nil Z)) with 0 in H. rewrite Z.add_0_l in H. rewrite H. clear H.
     rewrite loop_plain by assumption.
-    rewrite (loop_at_special _ 44 payload _ _ _ false last); try reflexivity.
+    rewrite (loop_at_special _ 44 payload _ _ _ false pv last); try reflexivity.
     2:{ apply (slice_ok_mid p last (44 :: payload)). }
     2:{ apply (slice_app_mid p last (44 :: payload)). }
     2:{ apply plain_bytes. assumption. }
-    cbv zeta. replace (list_eqb (trim_ref last) base64_bytes) with false by (symmetry; apply list_eqb_neq; assumption).
+    cbv zeta. replace (is_marker 44 pv (trim_ref last)) with false.
+    2:{ symmetry. unfold is_marker. cbn [negb andb Z.eqb Pos.eqb]. destruct (Z.eqb_spec pv 61) as [E|E]; [reflexivity|].
+        cbn [negb andb]. apply list_eqb_neq. apply Hnb. assumption. }
     cbn [negb andb Z.eqb Pos.eqb app]. unfold finish. reflexivity.
   Qed.
 
   Lemma datauri_base64_proof :
-    forall p np last payload, params p np -> plain last -> trim_ref last <> base64_bytes ->
+    forall p np pv last payload, params 0 p np pv -> plain last -> (pv <> 61 -> trim_ref last <> base64_bytes) ->
       data_uri b64dec (data_scheme ++ (p ++ last) ++ 59 :: base64_bytes ++ 44 :: payload) =
       match b64dec payload with
       | Some d => Ok (DOk (mt_default (np ++ trim_ref last)) d)
       | None => Ok DB64Err
       end.
   Proof.
-    intros p np last payload Hp Hlast Hnb.
+    intros p np pv last payload Hp Hlast Hnb.
     rewrite data_uri_unfold.
     2:{ apply in_or_app; right; right. apply in_or_app. right. left. reflexivity. }
     set (tail := 59 :: base64_bytes ++ 44 :: payload).
     rewrite <- app_assoc.
-    pose proof (loop_params p np Hp [] (last ++ tail) [] false) as H.
+    pose proof (loop_params 0 p np pv Hp [] (last ++ tail) [] false) as H.
     cbn [app] in H. change (len (@nil Z)) with 0 in H. rewrite Z.add_0_l in H. rewrite H. clear H.
     rewrite loop_plain by assumption.
     (* the ';' after the last segment *)
     unfold tail at 2.
-    rewrite (loop_at_special _ 59 (base64_bytes ++ 44 :: payload) _ _ _ false last); try reflexivity.
+    rewrite (loop_at_special _ 59 (base64_bytes ++ 44 :: payload) _ _ _ false pv last); try reflexivity.
     2:{ apply (slice_ok_mid p last tail). }
     2:{ apply (slice_app_mid p last tail). }
     2:{ apply plain_bytes. assumption. }
-    cbv zeta. replace (list_eqb (trim_ref last) base64_bytes) with false by (symmetry; apply list_eqb_neq; assumption).
+    cbv zeta. replace (is_marker 59 pv (trim_ref last)) with false.
+    2:{ symmetry. unfold is_marker. cbn [negb andb Z.eqb Pos.eqb]. destruct (Z.eqb_spec pv 61) as [E|E]; [reflexivity|].
+        cbn [negb andb]. apply list_eqb_neq. apply Hnb. assumption. }
     cbn [negb andb Z.eqb Pos.eqb].
     (* the word base64 *)
     assert (Hpb : plain base64_bytes) by (repeat constructor; unfold is_byte; lia).
     rewrite loop_plain by assumption.
-    (* the comma: u = (p ++ last ++ [59]) ++ base64 ++ 44 :: payload *)
+    (* the comma: u = (p ++ last ++ [59]) ++ base64 ++ 44 :: payload; the previous delimiter is the ';' *)
     assert (Hu : p ++ last ++ tail = (p ++ last ++ [59]) ++ base64_bytes ++ (44 :: payload)).
     { unfold tail. repeat rewrite <- app_assoc. reflexivity. }
     rewrite Hu.
     replace (len p + len last + 1) with (len (p ++ last ++ [59])) by (repeat rewrite len_app; change (len [59]) with 1; lia).
-    rewrite (loop_at_special _ 44 payload _ _ _ false base64_bytes); try reflexivity.
+    rewrite (loop_at_special _ 44 payload _ _ _ false 59 base64_bytes); try reflexivity.
     2:{ apply slice_ok_mid. }
     2:{ apply slice_app_mid. }
     2:{ apply plain_bytes. assumption. }
-    cbv zeta. rewrite trim_ref_base64, list_eqb_refl. cbn [negb andb Z.eqb Pos.eqb].
+    cbv zeta. rewrite trim_ref_base64. unfold is_marker. rewrite list_eqb_refl. cbn [negb andb Z.eqb Pos.eqb].
     (* the ';' appended after the last segment is removed again *)
     assert (Hmt : (if 0 <? len (np ++ trim_ref last ++ [59])
                    then firstz (len (np ++ trim_ref last ++ [59]) - 1) (np ++ trim_ref last ++ [59])
@@ -274,82 +286,165 @@ Section DataURI.
   Qed.
 End DataURI.
 
-(* the theorem: with a base64 decoder that inverts the encoder, and a percent-encoding table like the URL table *)
+(* the general theorem: any base64 decoder that inverts its encoder; ANY percent-encoding table that marks '%' *)
 Lemma datauri_roundtrip_proof :
   forall (b64dec : list Z -> option (list Z)) (b64enc : list Z -> list Z),
     (forall d, Forall is_byte d -> b64dec (b64enc d) = Some d) ->
-    forall p np last d t, params p np -> plain last -> trim_ref last <> base64_bytes -> Forall is_byte d ->
+    forall p np pv last d t, params 0 p np pv -> plain last -> (pv <> 61 -> trim_ref last <> base64_bytes) -> Forall is_byte d ->
       let mt := mt_default (np ++ trim_ref last) in
       data_uri b64dec (data_scheme ++ (p ++ last) ++ 59 :: base64_bytes ++ 44 :: b64enc d) = Ok (DOk mt d) /\
-      (tbl t 37 = Some true -> tbl t 43 = Some true ->
+      (tbl t 37 = Some true ->
        data_uri b64dec (data_scheme ++ (p ++ last) ++ 44 :: encode_ref t d) = Ok (DOk mt d)).
 Proof.
-  intros b64dec b64enc Hb64 p np last d t Hp Hlast Hnb Hd mt. split.
-  - rewrite (datauri_base64_proof b64dec p np last _ Hp Hlast Hnb). rewrite Hb64 by assumption. reflexivity.
-  - intros H37 H43. rewrite (datauri_percent_proof b64dec p np last _ Hp Hlast Hnb).
-    rewrite unescape_encode_ref by assumption. reflexivity.
+  intros b64dec b64enc Hb64 p np pv last d t Hp Hlast Hnb Hd mt. split.
+  - rewrite (datauri_base64_proof b64dec p np pv last _ Hp Hlast Hnb). rewrite Hb64 by assumption. reflexivity.
+  - intros H37. rewrite (datauri_percent_proof b64dec p np pv last _ Hp Hlast Hnb).
+    rewrite pct_unescape_encode_ref by assumption. reflexivity.
 Qed.
 
-(* instance: the executable model of base64.StdEncoding.Decode, the RFC 4648 encoder, the URL table *)
-Lemma datauri_roundtrip_std_proof :
-  forall p np last d, params p np -> plain last -> trim_ref last <> base64_bytes -> Forall is_byte d ->
-    let mt := mt_default (np ++ trim_ref last) in
-    data_uri b64_decode (data_scheme ++ (p ++ last) ++ 59 :: base64_bytes ++ 44 :: b64_encode d) = Ok (DOk mt d) /\
-    data_uri b64_decode (data_scheme ++ (p ++ last) ++ 44 :: encode_ref Tables.url_encoding_table d) = Ok (DOk mt d).
+(* --- every media type: type/subtype *( ";" name "=" value ) ----------------------------------------------- *)
+(* no leading or trailing whitespace *)
+Definition tight (seg : list Z) : Prop := trim_ref seg = seg.
+Definition param_ok (kv : list Z * list Z) : Prop :=
+  plain (fst kv) /\ plain (snd kv) /\ tight (fst kv) /\ tight (snd kv).
+Definition render_params (ps : list (list Z * list Z)) : list Z :=
+  flat_map (fun kv => 59 :: fst kv ++ 61 :: snd kv) ps.
+(* the media type as written: names and values are arbitrary (they may read "base64") *)
+Definition media_type (ty : list Z) (ps : list (list Z * list Z)) : list Z := ty ++ render_params ps.
+
+(* a first segment followed by n >= 1 parameters splits into a params list ending in '=' and a last value *)
+Lemma params_of_media_type : forall ps seg pv kv,
+  plain seg -> (pv <> 61 -> trim_ref seg <> base64_bytes) -> tight seg -> Forall param_ok (kv :: ps) ->
+  exists p last, seg ++ render_params (kv :: ps) = p ++ last /\ plain last /\
+                 exists np, params pv p np 61 /\ np ++ trim_ref last = seg ++ render_params (kv :: ps).
 Proof.
-  intros p np last d Hp Hlast Hnb Hd mt.
-  destruct (datauri_roundtrip_proof b64_decode b64_encode b64_roundtrip_proof p np last d Tables.url_encoding_table Hp Hlast Hnb Hd) as [H1 H2].
-  split; [exact H1|]. apply H2; apply url_table_facts.
+  induction ps as [|kv' ps IH]; intros seg pv [n v] Hseg Hnb Hts Hall.
+  - inversion Hall as [|? ? (Hn & Hv & Htn & Htv) _]; subst. cbn [fst snd] in *.
+    exists (seg ++ 59 :: n ++ 61 :: []), v. split.
+    { cbn [render_params flat_map fst snd]. rewrite app_nil_r. repeat (rewrite <- app_assoc; cbn [app]). reflexivity. }
+    split; [assumption|].
+    exists (trim_ref seg ++ 59 :: trim_ref n ++ 61 :: []). split.
+    { apply params_cons; [assumption|left; reflexivity|intros _; assumption|].
+      apply params_cons; [assumption|right; reflexivity|intros H; discriminate|apply params_nil]. }
+    cbn [render_params flat_map fst snd]. rewrite app_nil_r. rewrite Hts, Htn, Htv.
+    repeat (rewrite <- app_assoc; cbn [app]). reflexivity.
+  - inversion Hall as [|? ? (Hn & Hv & Htn & Htv) Hrest]; subst. cbn [fst snd] in *.
+    destruct (IH v 61 kv' Hv ltac:(intros H; contradiction) Htv Hrest) as (p' & last & Heq & Hlast & np' & Hp' & Hnp').
+    exists (seg ++ 59 :: n ++ 61 :: p'), last. split.
+    { change (render_params ((n, v) :: kv' :: ps)) with ((59 :: n ++ 61 :: v) ++ render_params (kv' :: ps)).
+      cbn [app]. rewrite <- app_assoc. cbn [app]. rewrite Heq. repeat (rewrite <- app_assoc; cbn [app]). reflexivity. }
+    split; [assumption|].
+    exists (trim_ref seg ++ 59 :: trim_ref n ++ 61 :: np'). split.
+    { apply params_cons; [assumption|left; reflexivity|intros _; assumption|].
+      apply params_cons; [assumption|right; reflexivity|intros H; discriminate|assumption]. }
+    change (render_params ((n, v) :: kv' :: ps)) with ((59 :: n ++ 61 :: v) ++ render_params (kv' :: ps)).
+    rewrite Hts, Htn. repeat (rewrite <- app_assoc; cbn [app]). rewrite Hnp'. reflexivity.
 Qed.
 
-(* hypotheses are satisfiable: "data:text/html; charset=utf-8;base64,dGV4dA==" *)
+(* a type with a '/' does not read "base64" *)
+Lemma slash_not_base64 ty : In 47 ty -> trim_ref ty <> base64_bytes.
+Proof.
+  intros Hin E. destruct (trim_ref_char ty) as (pre & post & Hty & Hpre & Hpost & _).
+  rewrite E in Hty. rewrite Hty in Hin.
+  apply in_app_or in Hin. destruct Hin as [Hin|Hin].
+  - unfold ws in Hpre. rewrite Forall_forall in Hpre. specialize (Hpre 47 Hin). lia.
+  - apply in_app_or in Hin. destruct Hin as [Hin|Hin].
+    + cbn in Hin. intuition discriminate.
+    + rewrite Forall_forall in Hpost. specialize (Hpost 47 Hin). unfold ws in Hpost. lia.
+Qed.
+
+Lemma mt_default_type ty rest : plain ty -> ty <> [] -> mt_default (ty ++ rest) = ty ++ rest.
+Proof.
+  intros Hp Hne. destruct ty as [|c t]; [contradiction|]. cbn [app mt_default].
+  inversion Hp as [|? ? (_ & _ & H59 & _) _]; subst. replace (c =? 59) with false by lia. reflexivity.
+Qed.
+
+Lemma datauri_mediatype_roundtrip_proof :
+  forall (b64dec : list Z -> option (list Z)) (b64enc : list Z -> list Z),
+    (forall d, Forall is_byte d -> b64dec (b64enc d) = Some d) ->
+    forall ty ps d t, plain ty -> In 47 ty -> tight ty -> Forall param_ok ps -> Forall is_byte d ->
+      let mt := media_type ty ps in
+      data_uri b64dec (data_scheme ++ mt ++ 59 :: base64_bytes ++ 44 :: b64enc d) = Ok (DOk mt d) /\
+      (tbl t 37 = Some true ->
+       data_uri b64dec (data_scheme ++ mt ++ 44 :: encode_ref t d) = Ok (DOk mt d)).
+Proof.
+  intros b64dec b64enc Hb64 ty ps d t Hty Hslash Htight Hps Hd mt.
+  assert (Hne : ty <> []) by (intros E; subst ty; contradiction).
+  pose proof (slash_not_base64 ty Hslash) as Hnb.
+  destruct ps as [|kv ps].
+  - (* no parameters: p = [], last = ty *)
+    pose proof (datauri_roundtrip_proof b64dec b64enc Hb64 [] [] 0 ty d t (params_nil 0) Hty (fun _ => Hnb) Hd) as H.
+    cbv zeta in H. cbn [app] in H. rewrite Htight in H.
+    unfold mt, media_type. cbn [render_params flat_map]. rewrite app_nil_r.
+    replace (mt_default ty) with ty in H by (rewrite <- (app_nil_r ty) at 2; rewrite mt_default_type by assumption; rewrite app_nil_r; reflexivity).
+    exact H.
+  - destruct (params_of_media_type ps ty 0 kv Hty (fun _ => Hnb) Htight Hps) as (p & last & Heq & Hlast & np & Hp & Hnp).
+    pose proof (datauri_roundtrip_proof b64dec b64enc Hb64 p np 61 last d t Hp Hlast ltac:(intros H; contradiction) Hd) as H.
+    cbv zeta in H. rewrite Hnp in H. rewrite <- Heq in H.
+    rewrite mt_default_type in H by assumption. exact H.
+Qed.
+
+(* instance: the executable model of base64.StdEncoding.Decode, the RFC 4648 encoder, and BOTH tables of /repo *)
+Lemma datauri_roundtrip_std_proof :
+  forall ty ps d, plain ty -> In 47 ty -> tight ty -> Forall param_ok ps -> Forall is_byte d ->
+    let mt := media_type ty ps in
+    data_uri b64_decode (data_scheme ++ mt ++ 59 :: base64_bytes ++ 44 :: b64_encode d) = Ok (DOk mt d) /\
+    (forall r, encode_url d Tables.datauri_encoding_table = Ok r -> data_uri b64_decode (data_scheme ++ mt ++ 44 :: r) = Ok (DOk mt d)) /\
+    (forall r, encode_url d Tables.url_encoding_table = Ok r -> data_uri b64_decode (data_scheme ++ mt ++ 44 :: r) = Ok (DOk mt d)).
+Proof.
+  intros ty ps d Hty Hslash Htight Hps Hd mt.
+  destruct (encode_exact_repo_tables d Hd) as [Eu Ed].
+  split; [|split].
+  - apply (datauri_mediatype_roundtrip_proof b64_decode b64_encode b64_roundtrip_proof ty ps d Tables.url_encoding_table); assumption.
+  - intros r Hr. rewrite Ed in Hr. injection Hr as <-.
+    apply (datauri_mediatype_roundtrip_proof b64_decode b64_encode b64_roundtrip_proof ty ps d Tables.datauri_encoding_table); try assumption.
+    apply datauri_table_facts.
+  - intros r Hr. rewrite Eu in Hr. injection Hr as <-.
+    apply (datauri_mediatype_roundtrip_proof b64_decode b64_encode b64_roundtrip_proof ty ps d Tables.url_encoding_table); try assumption.
+    apply url_table_facts.
+Qed.
+
+(* an absent media type is text/plain *)
+Lemma datauri_no_mediatype_proof :
+  forall (b64dec : list Z -> option (list Z)) (b64enc : list Z -> list Z),
+    (forall d, Forall is_byte d -> b64dec (b64enc d) = Some d) ->
+    forall d t, Forall is_byte d ->
+      data_uri b64dec (data_scheme ++ 59 :: base64_bytes ++ 44 :: b64enc d) = Ok (DOk text_mime d) /\
+      (tbl t 37 = Some true -> data_uri b64dec (data_scheme ++ 44 :: encode_ref t d) = Ok (DOk text_mime d)).
+Proof.
+  intros b64dec b64enc Hb64 d t Hd.
+  assert (Hnil : plain []) by constructor.
+  assert (Hnb : (0:Z) <> 61 -> trim_ref [] <> base64_bytes) by (intros _; vm_compute; discriminate).
+  pose proof (datauri_roundtrip_proof b64dec b64enc Hb64 [] [] 0 [] d t (params_nil 0) Hnil Hnb Hd) as H.
+  cbv zeta in H. cbn [app] in H. exact H.
+Qed.
+
+(* hypotheses are satisfiable: "data:text/html;charset=base64;base64,dGV4dA==" and "data:text/html;charset=base64,a+b%07" *)
 Example datauri_example :
-  let p := [116; 101; 120; 116; 47; 104; 116; 109; 108; 59; 32; 99; 104; 97; 114; 115; 101; 116; 61] in   (* text/html; charset= *)
-  let np := [116; 101; 120; 116; 47; 104; 116; 109; 108; 59; 99; 104; 97; 114; 115; 101; 116; 61] in      (* text/html;charset=  *)
-  let last := [117; 116; 102; 45; 56] in                                                                  (* utf-8 *)
-  params p np /\ plain last /\ trim_ref last <> base64_bytes /\
-  data_uri b64_decode (data_scheme ++ (p ++ last) ++ 59 :: base64_bytes ++ 44 :: b64_encode [116; 101; 120; 116]) =
-    Ok (DOk (np ++ last) [116; 101; 120; 116]) /\
+  let ty := [116; 101; 120; 116; 47; 104; 116; 109; 108] in                        (* text/html *)
+  let ps := [([99; 104; 97; 114; 115; 101; 116], base64_bytes)] in                 (* charset=base64 *)
+  plain ty /\ In 47 ty /\ tight ty /\ Forall param_ok ps /\
+  data_uri b64_decode (data_scheme ++ media_type ty ps ++ 59 :: base64_bytes ++ 44 :: b64_encode [116; 101; 120; 116]) =
+    Ok (DOk (media_type ty ps) [116; 101; 120; 116]) /\
+  data_uri b64_decode (data_scheme ++ media_type ty ps ++ [44; 97; 43; 98; 37; 48; 55]) = Ok (DOk (media_type ty ps) [97; 43; 98; 7]) /\
   data_uri b64_decode (data_scheme ++ [44]) = Ok (DOk text_mime []) /\
   data_uri b64_decode data_scheme = Ok DBad.
 Proof.
-  cbv zeta. split; [|split; [|split; [|split; [|split]]]].
-  - apply (params_cons [116; 101; 120; 116; 47; 104; 116; 109; 108] 59 [32; 99; 104; 97; 114; 115; 101; 116; 61] [99; 104; 97; 114; 115; 101; 116; 61]).
-    + repeat constructor; unfold is_byte; lia.
-    + left; reflexivity.
-    + intros _. vm_compute. discriminate.
-    + apply (params_cons [32; 99; 104; 97; 114; 115; 101; 116] 61 [] []).
-      * repeat constructor; unfold is_byte; lia.
-      * right; reflexivity.
-      * intros H. discriminate.
-      * apply params_nil.
+  cbv zeta. split; [|split; [|split; [|split; [|split; [|split; [|split]]]]]].
   - repeat constructor; unfold is_byte; lia.
-  - vm_compute. discriminate.
+  - cbn. tauto.
+  - vm_compute. reflexivity.
+  - constructor; [|constructor]. unfold param_ok, tight. cbn [fst snd]. split; [|split; [|split]].
+    + repeat constructor; unfold is_byte; lia.
+    + repeat constructor; unfold is_byte; lia.
+    + vm_compute. reflexivity.
+    + vm_compute. reflexivity.
+  - vm_compute. reflexivity.
   - vm_compute. reflexivity.
   - vm_compute. reflexivity.
   - vm_compute. reflexivity.
 Qed.
-
-(* the two deviations the Go oracle reports, on the model *)
-Lemma datauri_findings_proof :
-  (* a literal '+' in a percent-encoded payload becomes a space *)
-  data_uri b64_decode (data_scheme ++ [44; 97; 43; 98]) = Ok (DOk text_mime [97; 32; 98]) /\
-  (* a parameter VALUE "base64" is taken for the marker: "data:x/y;a=base64,%07" *)
-  data_uri b64_decode (data_scheme ++ [120; 47; 121; 59; 97; 61] ++ base64_bytes ++ [44; 37; 48; 55]) = Ok DB64Err.
-Proof. vm_compute. split; reflexivity. Qed.
 
 Lemma no_panic_datauri_proof :
   forall b64dec b, Forall is_byte b -> exists r, data_uri b64dec b = Ok r.
 Proof. intros b64dec b Hb. destruct (datauri_total_proof b64dec b Hb) as (r & Hr & _). eauto. Qed.
-
-(* percent-encoding with the library's own DataURIEncodingTable: everything but '+' comes back *)
-Lemma datauri_percent_datauri_table_proof :
-  forall b64dec p np last d, params p np -> plain last -> trim_ref last <> base64_bytes -> Forall is_byte d ->
-    data_uri b64dec (data_scheme ++ (p ++ last) ++ 44 :: encode_ref Tables.datauri_encoding_table d) =
-    Ok (DOk (mt_default (np ++ trim_ref last)) (map plus_to_space d)).
-Proof.
-  intros b64dec p np last d Hp Hlast Hnb Hd.
-  rewrite (datauri_percent_proof b64dec p np last _ Hp Hlast Hnb).
-  destruct datauri_table_facts as (_ & _ & H37 & H43).
-  rewrite unescape_encode_ref_plus by assumption. reflexivity.
-Qed.
